@@ -109,12 +109,13 @@ class Case:
         self.tag = tag
         self.structure = None           # generator-level description (for shrinking)
         self.cwd = ""                   # directory (below the run's root) penne is started in
+        self.may_reject = False         # a rejection with a diagnostic is as good as the reference behaviour
 
     def to_json(self):
         return {"files": self.files, "orders": self.orders, "entropies": self.entropies,
                 "reference": list(self.reference) if self.reference else None,
                 "pub_fns": {k: sorted(v) for k, v in self.pub_fns.items()}, "tag": self.tag,
-                "structure": self.structure, "cwd": self.cwd}
+                "structure": self.structure, "cwd": self.cwd, "may_reject": self.may_reject}
 
     @staticmethod
     def from_json(d):
@@ -123,6 +124,7 @@ class Case:
                  {k: set(v) for k, v in (d.get("pub_fns") or {}).items()}, d.get("tag", ""))
         c.structure = d.get("structure")
         c.cwd = d.get("cwd", "")
+        c.may_reject = d.get("may_reject", False)
         return c
 
 
@@ -169,6 +171,8 @@ def evaluate_case(case, wd, check_artifacts=True, stats=None):
                 if stats is not None:
                     stats["runs"] = stats.get("runs", 0) + nruns
                 return [("hang", "order=%s entropy=%d: no exit within %ds" % (order, e, TIMEOUT_S))]
+            elif p["verdict"] == "rejected" and case.may_reject:
+                pass
             elif p["verdict"] in ("rejected", "malformed"):
                 viol.append(("split_rejected", "order=%s entropy=%d: %s %s" % (order, e, p.get("codes"), (p.get("stderr") or p.get("detail") or "")[:400])))
             if first is None:
@@ -577,6 +581,63 @@ def build_program_cases(seed, i, tier):
     return out
 
 
+# Hand-written programs for shapes the generator avoids on purpose (section 8.1b of
+# DESIGN.md): names of one module captured by another through an import, and the C
+# symbols behind the builtins. (name, unsplit program or None, files, command-line
+# names, files that make up the reference when there is no unsplit program)
+HYGIENE_TEMPLATES = [
+    ("private_constant_captured_through_import",
+     "const A_EXP: i32 = 5;\nconst B: i32 = A_EXP + 1;\n\nfn get_b() -> i32\n{\n\treturn: B\n}\n\nconst A_IMP: i32 = 100;\n\n"
+     "fn main() -> i32\n{\n\tvar d = A_IMP - 100;\n\treturn: B - get_b() + 7 + d\n}\n",
+     {"a.pn": "const A: i32 = 5;\npub const B: i32 = A + 1;\n\npub fn get_b() -> i32\n{\n\treturn: B\n}\n",
+      "main.pn": 'import "a.pn";\n\nconst A: i32 = 100;\n\nfn main() -> i32\n{\n\tvar d = A - 100;\n\treturn: B - get_b() + 7 + d\n}\n'},
+     ["main.pn", "a.pn"], None),
+    ("private_length_captured_through_import",
+     "const N_EXP: usize = 4;\n\nstruct S\n{\n\td: [N_EXP]i32,\n\ttail: i32,\n}\n\nfn size_there() -> usize\n{\n\treturn: |:S|\n}\n\n"
+     "const N_IMP: usize = 1;\n\nfn main() -> i32\n{\n\tvar here: usize = |:S| + N_IMP - 1;\n\tvar r = 7;\n\tif here == size_there()\n\t{\n\t\tr = 8;\n\t}\n\treturn: r\n}\n",
+     {"a.pn": "const N: usize = 4;\n\npub struct S\n{\n\td: [N]i32,\n\ttail: i32,\n}\n\npub fn size_there() -> usize\n{\n\treturn: |:S|\n}\n",
+      "main.pn": 'import "a.pn";\n\nconst N: usize = 1;\n\nfn main() -> i32\n{\n\tvar here: usize = |:S| + N - 1;\n\tvar r = 7;\n\tif here == size_there()\n\t{\n\t\tr = 8;\n\t}\n\treturn: r\n}\n'},
+     ["main.pn", "a.pn"], None),
+    ("unrelated_function_named_like_a_builtin_symbol",
+     None,
+     {"greeter.pn": 'pub fn greet()\n{\n\tprint!("hello\\n");\n}\n',
+      "main.pn": 'import "greeter.pn";\n\nfn main() -> i32\n{\n\tgreet();\n\treturn: 7\n}\n',
+      "util.pn": "pub fn write(x: i32) -> i32\n{\n\treturn: x + 1\n}\n"},
+     ["main.pn", "greeter.pn", "util.pn"], ["main.pn", "greeter.pn"]),
+]
+
+
+def run_template(args):
+    """One hand-written hygiene program: every file order x two entropy streams,
+    judged like a generated split against its unsplit (or reduced) reference.
+    A rejection with a diagnostic is accepted; a wrong result is not."""
+    seed, k = args
+    name, single, files, names, ref_names = HYGIENE_TEMPLATES[k]
+    rng = rng_for(seed, TAG + "/template", k)
+    wd_root = os.path.join(work_root(), "C12", "t%d" % k)
+    fresh_dir(wd_root)
+    stats = {}
+    ref_wd = os.path.join(wd_root, "ref")
+    fresh_dir(ref_wd)
+    if single is not None:
+        write_files(ref_wd, {"main.pn": single})
+        r = penne_run(ref_wd, ["main.pn"], rng.getrandbits(64))
+    else:
+        write_files(ref_wd, {n: files[n] for n in ref_names})
+        r = penne_run(ref_wd, ref_names, rng.getrandbits(64))
+    p = parse_run(r)
+    res = {"k": k, "name": name, "violations": [], "stats": stats, "reference": p["verdict"]}
+    if p["verdict"] != "ok":
+        raise HarnessError("hygiene template %s: the reference program does not run: %s" % (name, (p.get("stderr") or p.get("detail") or "")[:300]))
+    on_disk = {n: t for n, t in files.items() if n in names}
+    case = Case(on_disk, sample_orders(names, rng, None), [rng.getrandbits(64) for _ in range(2)], behaviour(p), {}, "template:" + name)
+    case.may_reject = True
+    for cls, detail in evaluate_case(case, os.path.join(wd_root, "c"), check_artifacts=False, stats=stats):
+        res["violations"].append({"class": cls, "detail": detail, "kind": "case", "case": case.to_json()})
+    shutil.rmtree(wd_root, ignore_errors=True)
+    return res
+
+
 def run_program(args):
     seed, i, tier = args
     wd_root = os.path.join(work_root(), "C12", "p%d" % i)
@@ -671,6 +732,8 @@ def signature_of(cls, v):
         files = v["case"]["files"]
     elif v["kind"] == "negative":
         files = v["negative"]["files"]
+    if v["kind"] == "case" and (v["case"].get("tag") or "").startswith("template:"):
+        return cls + "/" + v["case"]["tag"]
     if files:
         if cls == "compiler_crash":
             structs = {}
@@ -785,6 +848,11 @@ def run(tier, seed):
             neg_by[k] = neg_by.get(k, 0) + v
         for v in res["violations"]:
             raw.append((v, res["i"]))
+    template_runs = 0
+    for res in parallel_map(run_template, [(seed, k) for k in range(len(HYGIENE_TEMPLATES))]):
+        template_runs += res["stats"].get("runs", 0) + 1
+        for v in res["violations"]:
+            raw.append((v, 10**6 + res["k"]))
     # minimise at most a few per class (the rest are reported unminimised)
     per_class = {}
     jobs = []
@@ -832,6 +900,8 @@ def run(tier, seed):
         "histories": stats.get("histories", 0),
         "cli_runs": stats.get("runs", 0),
         "llvm_as_checks": stats.get("llvm_as", 0),
+        "hygiene_templates": len(HYGIENE_TEMPLATES),
+        "hygiene_template_runs": template_runs,
         "runs_per_hour": rate_per_hour(runs, wall),
         "seeds_per_hour": rate_per_hour(len(results), wall),
         "simulated_time": "none: penne has no clock; logical time is the index of the module in the file order / history",
